@@ -51,6 +51,8 @@ func main() {
 					cases = append(cases, g.distCase(i))
 				case "dnest":
 					cases = append(cases, g.dnestCase(i))
+				case "dfunc":
+					cases = append(cases, g.dfuncCase(i))
 				case "sequence", "concurrent":
 					cases = append(cases, g.multiCase(i, *prof))
 				case "extreme":
